@@ -155,6 +155,12 @@ func staleReasons(e *enc) []string {
 	return out
 }
 
+// retryBudget: how many undecided obligations are retried with other seeds / more time (see runCheck)
+const retryBudget = 12
+
+// perFuncFailCap: after this many undecided obligations of one function the remaining ones are reported without being attempted
+const perFuncFailCap = 8
+
 func loadKnown(root string) []KnownFinding {
 	var k []KnownFinding
 	data, err := os.ReadFile(filepath.Join(root, "known_findings.json"))
@@ -179,6 +185,8 @@ func loadMeta(root, prop string) PropertyMeta {
 	}
 	return m
 }
+
+var phaseT0 = time.Now()
 
 func runCheck(repo, root, prop, tier string, seed int) *CheckResult {
 	res := &CheckResult{Property: prop, Tier: tier, Seed: seed}
@@ -392,48 +400,102 @@ func runCheck(repo, root, prop, tier string, seed int) *CheckResult {
 		}
 	}
 
+	phase := func(what string) {
+		if os.Getenv("GOVC_PHASES") != "" {
+			fmt.Fprintf(os.Stderr, "PHASE %s at %.1fs\n", what, time.Since(phaseT0).Seconds())
+		}
+	}
+	phase("encoded")
 	// 2. discharge
 	var wg sync.WaitGroup
+	var failMu sync.Mutex
+	failCount := map[string]int{}
+	queue := make(chan *Obligation, len(obls))
 	for _, o := range obls {
-		if o.Result != nil {
-			continue
+		if o.Result == nil {
+			queue <- o
 		}
-		wg.Add(1)
-		go func(o *Obligation) {
-			defer wg.Done()
-			if o.Query == "" {
-				o.Query = o.BuildQuery()
-			}
-			// attempt ladder: the solvers' default configuration first (deterministic), then another random seed
-			// (VERIF_SEED-derived), then the default configuration again with four times the time (a loaded machine must not
-			// turn a slow proof into an alarm). `unsat` under any configuration discharges; only an attempt's own `sat` fails at once.
-			s2 := seed
-			if s2 == 0 {
-				s2 = 7
-			}
-			r := discharge(work, o.Name, o.Query, timeout, 0)
-			for _, at := range []struct{ seed, t int }{{s2, timeout}, {0, timeout * 4}} {
-				if r.Status == "unsat" || r.Status == "sat" || r.Status == "error" {
-					break
-				}
-				r2 := discharge(work, fmt.Sprintf("%s.retry%d", o.Name, at.seed), o.Query, at.t, at.seed)
-				if r2.Status == "unsat" || r2.Status == "sat" {
-					r2.Solver += fmt.Sprintf(" (retry, seed %d)", at.seed)
-					r = r2
-				}
-			}
-			o.Result = &r
-		}(o)
 	}
+	close(queue)
+	for w := 0; w < 24; w++ {
+		wg.Add(1)
+		go func() {
+			defer wg.Done()
+			for o := range queue {
+				if o.Query == "" {
+					o.Query = o.BuildQuery()
+				}
+				// once several obligations of one function are undecided, the rest of that function's obligations are
+				// not worth minutes of solver time: the function no longer verifies, which is what gets reported
+				failMu.Lock()
+				giveUp := failCount[o.Func] >= perFuncFailCap
+				failMu.Unlock()
+				if giveUp && o.Func != "" {
+					o.Result = &SolverResult{Status: "not-attempted", Output: fmt.Sprintf("%d obligations of %s were already undecided", perFuncFailCap, o.Func)}
+					continue
+				}
+				// first attempt: the solvers' default configuration (deterministic)
+				t1 := timeout
+				if strings.Contains(o.Label, ".slow") {
+					t1 = timeout * 3 // a clause known to need several seconds of solver time (prefix reasoning across many appends)
+				}
+				r := discharge(work, o.Name, o.Query, t1, 0)
+				o.Result = &r
+				if r.Status != "unsat" {
+					failMu.Lock()
+					failCount[o.Func]++
+					failMu.Unlock()
+				}
+			}
+		}()
+	}
+	var cwg sync.WaitGroup
 	coverRes := make([]string, len(covers))
 	for i, o := range covers {
-		wg.Add(1)
+		cwg.Add(1)
 		go func(i int, o *Obligation) {
-			defer wg.Done()
+			defer cwg.Done()
 			coverRes[i] = runCover(o, work, seed, coverTimeout)
 		}(i, o)
 	}
 	wg.Wait()
+	// retries: an obligation left undecided gets another random seed (VERIF_SEED-derived) and then the default configuration
+	// again with four times the CPU time, so that a slow proof is not an alarm. When many obligations are undecided at once
+	// the cause is a change in the code, not a slow solver: retrying them all would only multiply the time to the verdict.
+	var undecided []*Obligation
+	for _, o := range obls {
+		if o.Result != nil && o.Query != "" && o.Result.Status != "unsat" && o.Result.Status != "sat" && o.Result.Status != "error" && o.Result.Status != "unsupported" && o.Result.Status != "missing" && o.Result.Status != "not-attempted" {
+			undecided = append(undecided, o)
+		}
+	}
+	if len(undecided) <= retryBudget {
+		s2 := seed
+		if s2 == 0 {
+			s2 = 7
+		}
+		for _, o := range undecided {
+			wg.Add(1)
+			go func(o *Obligation) {
+				defer wg.Done()
+				r := *o.Result
+				for _, at := range []struct{ seed, t int }{{s2, timeout}, {0, timeout * 4}} {
+					if r.Status == "unsat" || r.Status == "sat" || r.Status == "error" {
+						break
+					}
+					r2 := discharge(work, fmt.Sprintf("%s.retry%d", o.Name, at.seed), o.Query, at.t, at.seed)
+					if r2.Status == "unsat" || r2.Status == "sat" {
+						r2.Solver += fmt.Sprintf(" (retry, seed %d, %ds)", at.seed, at.t)
+						r = r2
+					}
+				}
+				o.Result = &r
+			}(o)
+		}
+	}
+	wg.Wait()
+	phase("discharged")
+	cwg.Wait()
+	phase("covers")
 	for i, o := range covers {
 		switch coverRes[i] {
 		case "sat":
